@@ -206,6 +206,26 @@ func (p *c16) nonReserved(x *res, ctx *runner.Ctx) {
 	}
 }
 
+// aliased: through a #name placeholder ANY attribute name may be used - names that are no identifiers, names that
+// look like placeholders themselves ("#h", ":x" are legal attribute names), names with blanks or leading digits.
+// None of the usage restrictions applies to what a placeholder stands for.
+func (p *c16) aliased(x *res, ctx *runner.Ctx) {
+	for _, n := range []string{"#h", "#w", "#", ":x", ":", "##", "a-b", "1a", "a b", " a", "é", "a#b", "a:b", "_", "0"} {
+		for _, pos := range c16Positions {
+			expr := pos.mk("#w")
+			names := map[string]string{"#w": n}
+			got, msg, site := evalExpr(expr, pos.update, names, neededValues(expr), aliasItem(pos, n))
+			x.r.Evals++
+			x.fp(true, "R1d|%s|%s", pos.name, n)
+			if got == "panic" {
+				x.viol("runtime-panic", site, fmt.Sprintf("%q with #w -> %q panics: %s", expr, n, msg), nil)
+			} else if got != "ok" {
+				x.viol("aliased-name-rejected", pos.name, fmt.Sprintf("'#w' -> %q at %s is rejected although any attribute name may stand behind a placeholder: %q: %s", n, pos.name, expr, msg), map[string]interface{}{"expression": expr, "names": names, "msg": msg})
+			}
+		}
+	}
+}
+
 // two pools per kind: letters only, and digit-first / underscore / mixed-case names (what the SDK expression
 // builders emit: #0, #1, :0 ...); within each pool two names are prefixes of another one
 var c16ValPools = [][]string{{":a", ":ab", ":abc", ":b"}, {":0", ":01", ":_", ":A1"}}
@@ -717,6 +737,7 @@ func (p *c16) RunCase(ctx *runner.Ctx) runner.CaseResult {
 		}
 	case c == nw:
 		p.nonReserved(x, ctx)
+		p.aliased(x, ctx)
 	case c < nw+9:
 		i := c - nw - 1
 		p.placeholders(x, adapt.Adapters[i%2], []string{"values", "names"}[(i/2)%2], i/4, ctx)
